@@ -1,5 +1,6 @@
 import TlsModel.Proto
 import TlsModel.RsaDecrypt
+import TlsModel.RsaServer
 /-
   Driver for C11.
     dec  nhex dhex emhex chex shatable hmactable   -> none | some <hex> | error <name>
@@ -12,8 +13,24 @@ import TlsModel.RsaDecrypt
     parse emhex                                    -> none | <msg start>   (parseEM, the plain spec)
     cke  cvmaj cvmin svmaj svmin randhex decres    -> hex   (substitutePremaster; decres = none|hex)
     nbits x / nbytes x (hex)                       -> decimal
+    srv vmaj vmin ems cert ccsType cvmaj cvmin randhex decres clientPmsHex consumed
+         -> <trace> <outcome>   server path after ClientKeyExchange (TlsModel/RsaServer.lean) on the
+         symbolic primitives: the server's premaster is substitutePremaster(decres, rand, client
+         version, negotiated version); the client's flight is the honest one for clientPms.
 -/
-open Tls Tls.RsaDec
+open Tls Tls.RsaDec Tls.RsaServer
+
+def showEmit (e : Emit) : String :=
+  match e.alert with
+  | some (l, d) => s!"alert:{l}:{d}@{e.consumed}"
+  | none => s!"{e.ctype}:{if e.encrypted then "e" else "p"}{e.plainLen}@{e.consumed}"
+
+def showOutcome : Outcome → String
+  | .done => "done"
+  | .localAlert d => s!"localAlert:{d}"
+  | .remoteAlert l d => s!"remoteAlert:{l}:{d}"
+  | .wouldBlock => "wouldBlock"
+  | .pyErr e => "pyErr:" ++ e.name
 
 def splitTable (s : String) : List String := if s == "-" then [] else s.splitOn ","
 
@@ -71,6 +88,19 @@ def handle : List String → Option String
     let rand ← ofHex rand
     let dec ← (if dec == "none" then some none else (ofHex dec).map some)
     some (hexOut (substitutePremaster dec rand cv sv))
+  | ["srv", vmaj, vmin, ems, cert, ccs, cvmaj, cvmin, rand, dec, cpms, consumed] => do
+    let ver := ((← vmaj.toNat?), (← vmin.toNat?))
+    let cv := ((← cvmaj.toNat?), (← cvmin.toNat?))
+    let rand ← ofHex rand
+    let dec ← (if dec == "none" then some none else (ofHex dec).map some)
+    let cpms ← ofHex cpms
+    let E : SrvEnv := { version := ver, ems := ems == "1", hasClientCert := cert == "1", clientRandom := [1, 1],
+                        serverRandom := [2, 2], transcript := [[1, 0], [16, 0]], keyLen := 104,
+                        consumed := (← consumed.toNat?) }
+    let pms := substitutePremaster dec rand cv ver
+    let r := serverAfterCKE symPrims E pms (symClientFlight E cpms (← ccs.toNat?))
+    let tr := if r.trace.isEmpty then "-" else String.intercalate "," (r.trace.map showEmit)
+    some (tr ++ " " ++ showOutcome r.outcome)
   | ["nbits", x] => do some (toString (numBits (beDecode (← ofHex x))))
   | ["nbytes", x] => do some (toString (numBytes (beDecode (← ofHex x))))
   | _ => none
